@@ -1648,7 +1648,7 @@ class _rrulestr(object):
         tzid_text = re.sub(r'\r?\n ', '', s) if unfold else s
         TZID_NAMES = dict(map(
             lambda x: (x.upper(), x),
-            re.findall('TZID=(?P<name>[^:]+):', tzid_text)
+            re.findall('TZID=(?P<name>[^:;]+)[:;]', tzid_text, re.IGNORECASE)
         ))
         s = s.upper()
         if not s.strip():
